@@ -308,14 +308,14 @@ theorem deindex_dump (n : Nat) (bl : List (List Nat × Rat))
   simp
 
 /-! ### assembly -/
-theorem dumpBlt_shape (d : Doc Weight) :
-    dumpBlt d = Line.toks [.nat d.cands.length, .nat d.nSeats] ::
+theorem dumpLines_shape (d : Doc Weight) :
+    dumpLines d = Line.toks [.nat d.cands.length, .nat d.nSeats] ::
       ((withdrawnInds d.cands).map (fun (i : Nat) => Line.toks [.dec (-((i : Rat) + 1))]) ++
         (d.ballots.map dumpVote ++ (Line.toks [.nat 0] ::
           (d.cands.map (fun c => Line.quoted c.1) ++ (match d.title with | some t => [Line.quoted t] | none => []))))) := by
-  cases h : d.title <;> simp [dumpBlt, h, List.append_assoc]
+  cases h : d.title <;> simp [dumpLines, h, List.append_assoc]
 
-theorem load_dump (d : Doc Weight) (h : WFdoc d = true) : loadBlt (dumpBlt d) = .ok (eraseDoc d) := by
+theorem load_dumpLines (d : Doc Weight) (h : WFdoc d = true) : loadBlt (dumpLines d) = .ok (eraseDoc d) := by
   simp only [WFdoc, Bool.and_eq_true, List.all_eq_true, decide_eq_true_eq] at h
   obtain ⟨hall, hnd⟩ := h
   have hok : ∀ b ∈ d.ballots, weightOK b.2 = true := fun b hb => (hall b hb).2
@@ -332,7 +332,7 @@ theorem load_dump (d : Doc Weight) (h : WFdoc d = true) : loadBlt (dumpBlt d) = 
         = (d.ballots.map (·.1)).map (fun l => l.map (· + 1)) := by simp
     rw [this]
     exact hnd.map hinj
-  rw [dumpBlt_shape]
+  rw [dumpLines_shape]
   simp only [loadBlt, loadBltWith]
   have hh : parseHeader (Line.toks [.nat d.cands.length, .nat d.nSeats]) = .ok (d.cands.length, d.nSeats) := by
     simp [parseHeader, parseNumline, parseItems]
@@ -415,8 +415,8 @@ theorem parseHeader_err (l : Line) (e : Err) (h : parseHeader l = .error e) : e 
     · simp at h
     · simp at h; exact h.symm
 
-theorem parseBody_err : ∀ (ls : List Line) (bs : RawBallots) (wd : List Rat) (seen : Bool) (e : Err),
-    parseBody false ls bs wd seen = .error e → e = Err.parseError
+theorem parseBody_err (op : Bool) : ∀ (ls : List Line) (bs : RawBallots) (wd : List Rat) (seen : Bool) (e : Err),
+    parseBody op ls bs wd seen = .error e → e = Err.parseError
   | [], _, _, _, e, h => by simp [parseBody] at h; exact h.symm
   | l :: rest, bs, wd, seen, e, h => by
       simp only [parseBody] at h
@@ -426,36 +426,13 @@ theorem parseBody_err : ∀ (ls : List Line) (bs : RawBallots) (wd : List Rat) (
         rw [hr] at h
         simp only [ok_bind] at h
         cases result with
-        | nil => exact parseBody_err rest bs wd seen e h
+        | nil => exact parseBody_err op rest bs wd seen e h
         | cons first more =>
-          simp only [Bool.false_and, Bool.false_eq_true, if_false] at h
           repeat' split at h
           all_goals first
             | (simp at h; done)
             | (simp at h; exact h.symm)
-            | exact parseBody_err rest _ _ _ e h
-
-/-- with `oneplus_weights=True` the body loop can also raise ValueError (a ballot weight below 1) — and nothing else -/
-theorem parseBody_err_oneplus : ∀ (ls : List Line) (bs : RawBallots) (wd : List Rat) (seen : Bool) (e : Err),
-    parseBody true ls bs wd seen = .error e → e = Err.parseError ∨ e = Err.other "ValueError"
-  | [], _, _, _, e, h => by simp [parseBody] at h; exact Or.inl h.symm
-  | l :: rest, bs, wd, seen, e, h => by
-      simp only [parseBody] at h
-      cases hr : parseNumline true l with
-      | error e' => rw [hr] at h; simp at h; subst h; exact Or.inl (parseNumline_err _ _ _ hr)
-      | ok result =>
-        rw [hr] at h
-        simp only [ok_bind] at h
-        cases result with
-        | nil => exact parseBody_err_oneplus rest bs wd seen e h
-        | cons first more =>
-          simp only [Bool.true_and] at h
-          repeat' split at h
-          all_goals first
-            | (simp at h; done)
-            | (simp at h; exact Or.inl h.symm)
-            | (simp at h; exact Or.inr h.symm)
-            | exact parseBody_err_oneplus rest _ _ _ e h
+            | exact parseBody_err op rest _ _ _ e h
 
 theorem collectStrings_err : ∀ (ls : List Line) (b : Bool) (acc : List String) (e : Err),
     collectStrings ls b acc = .error e → e = Err.parseError
@@ -487,20 +464,20 @@ theorem deindex_err (n : Nat) (bs : RawBallots) (e : Err) (h : deindex n bs = .e
   · simp at h
   · simp at h; exact h.symm
 
-/-- every exception `loads` can raise on any token lines is the parse error -/
-theorem loadBlt_err (ls : List Line) (e : Err) (h : loadBlt ls = .error e) : e = Err.parseError := by
+/-- every exception `loads` can raise on any token lines, with either setting of `oneplus_weights`, is the parse error -/
+theorem loadBltWith_err (op : Bool) (ls : List Line) (e : Err) (h : loadBltWith op ls = .error e) : e = Err.parseError := by
   cases ls with
-  | nil => simp [loadBlt, loadBltWith] at h; exact h.symm
+  | nil => simp [loadBltWith] at h; exact h.symm
   | cons hd rest =>
-    simp only [loadBlt, loadBltWith] at h
+    simp only [loadBltWith] at h
     cases hh : parseHeader hd with
     | error e' => rw [hh] at h; simp at h; subst h; exact parseHeader_err _ _ hh
     | ok ns =>
       obtain ⟨nC, nS⟩ := ns
       rw [hh] at h
       simp only [ok_bind] at h
-      cases hb : parseBody false rest [] [] false with
-      | error e' => rw [hb] at h; simp at h; subst h; exact parseBody_err _ _ _ _ _ hb
+      cases hb : parseBody op rest [] [] false with
+      | error e' => rw [hb] at h; simp at h; subst h; exact parseBody_err op _ _ _ _ _ hb
       | ok r =>
         obtain ⟨bal, wd, rest'⟩ := r
         rw [hb] at h
@@ -515,35 +492,82 @@ theorem loadBlt_err (ls : List Line) (e : Err) (h : loadBlt ls = .error e) : e =
           | error e' => rw [hd2] at h; simp at h; subst h; exact deindex_err _ _ _ hd2
           | ok tb => rw [hd2] at h; simp at h
 
-theorem loadBltWith_true_err (ls : List Line) (e : Err) (h : loadBltWith true ls = .error e) :
-    e = Err.parseError ∨ e = Err.other "ValueError" := by
-  cases ls with
-  | nil => simp [loadBltWith] at h; exact Or.inl h.symm
-  | cons hd rest =>
-    simp only [loadBltWith] at h
-    cases hh : parseHeader hd with
-    | error e' => rw [hh] at h; simp at h; subst h; exact Or.inl (parseHeader_err _ _ hh)
-    | ok ns =>
-      obtain ⟨nC, nS⟩ := ns
-      rw [hh] at h
-      simp only [ok_bind] at h
-      cases hb : parseBody true rest [] [] false with
-      | error e' => rw [hb] at h; simp at h; subst h; exact parseBody_err_oneplus _ _ _ _ _ hb
-      | ok r =>
-        obtain ⟨bal, wd, rest'⟩ := r
-        rw [hb] at h
-        simp only [ok_bind] at h
-        cases hs : parseStrings rest' nC with
-        | error e' => rw [hs] at h; simp at h; subst h; exact Or.inl (parseStrings_err _ _ _ hs)
-        | ok r2 =>
-          obtain ⟨names?, title⟩ := r2
-          rw [hs] at h
-          simp only [ok_bind] at h
-          cases hd2 : deindex (formCandidates (names?.getD (numericCandidates nC)) wd).length bal with
-          | error e' => rw [hd2] at h; simp at h; subst h; exact Or.inl (deindex_err _ _ _ hd2)
-          | ok tb => rw [hd2] at h; simp at h
+theorem loadBlt_err (ls : List Line) (e : Err) (h : loadBlt ls = .error e) : e = Err.parseError :=
+  loadBltWith_err false ls e h
 
-/-! ### what is returned names listed candidates only -/
+/-! ### the writer's refusals -/
+theorem wf_not_refused (d : Doc Weight) (h : WFdoc d = true) : d.ballots.any (voteRefused d.cands.length) = false := by
+  simp only [WFdoc, Bool.and_eq_true, List.all_eq_true, decide_eq_true_eq] at h
+  rw [Bool.eq_false_iff]
+  intro hany
+  simp only [List.any_eq_true, voteRefused, Bool.or_eq_true, decide_eq_true_eq] at hany
+  obtain ⟨b, hb, hr⟩ := hany
+  have hb2 := (h.1 b hb)
+  rcases hr with hneg | ⟨i, hi, hge⟩
+  · have hw := hb2.2
+    cases hbw : b.2 with
+    | int z =>
+      rw [hbw] at hw hneg
+      simp only [weightOK, decide_eq_true_eq] at hw
+      simp only [Weight.val] at hneg
+      have : (0 : Rat) ≤ (z : Rat) := by exact_mod_cast hw
+      linarith
+    | decimal r dg =>
+      rw [hbw] at hw hneg
+      simp only [weightOK, Bool.and_eq_true, decide_eq_true_eq] at hw
+      simp only [Weight.val] at hneg
+      linarith [hw.1]
+    | fraction r =>
+      rw [hbw] at hw hneg
+      simp only [weightOK, decide_eq_true_eq] at hw
+      simp only [Weight.val] at hneg
+      linarith
+  · have := hb2.1 i hi
+    omega
+
+theorem load_dump (d : Doc Weight) (h : WFdoc d = true) :
+    ∃ ls, dumpBlt d = .ok ls ∧ loadBlt ls = .ok (eraseDoc d) := by
+  refine ⟨dumpLines d, ?_, load_dumpLines d h⟩
+  simp [dumpBlt, wf_not_refused d h]
+
+/-- a document of the writer's domain that no ballot of which is refused meets the round-trip hypothesis -/
+theorem wf_of_not_refused (d : Doc Weight) (hr : WFrepr d = true)
+    (hn : d.ballots.any (voteRefused d.cands.length) = false) : WFdoc d = true := by
+  simp only [WFrepr, Bool.and_eq_true, List.all_eq_true, decide_eq_true_eq] at hr
+  simp only [WFdoc, Bool.and_eq_true, List.all_eq_true, decide_eq_true_eq]
+  refine ⟨fun b hb => ?_, hr.2⟩
+  have hnb : voteRefused d.cands.length b = false := by
+    rw [Bool.eq_false_iff]; intro hx
+    have : d.ballots.any (voteRefused d.cands.length) = true := List.any_eq_true.2 ⟨b, hb, hx⟩
+    rw [hn] at this; cases this
+  simp only [voteRefused, Bool.or_eq_false_iff, decide_eq_false_iff_not, not_lt] at hnb
+  obtain ⟨hpos, hidx⟩ := hnb
+  refine ⟨fun i hi => ?_, ?_⟩
+  · have := List.any_eq_false.1 hidx i hi
+    simp only [decide_eq_true_eq, not_le] at this
+    simpa using this
+  · have hrb := hr.1 b hb
+    cases hbw : b.2 with
+    | int z =>
+      rw [hbw] at hpos
+      simp only [Weight.val] at hpos
+      simp only [weightOK, decide_eq_true_eq]
+      exact_mod_cast hpos
+    | decimal r dg =>
+      rw [hbw] at hpos hrb
+      simp only [Weight.val] at hpos
+      simp only [reprOK, Bool.or_eq_true, Bool.not_eq_true', Bool.and_eq_true, decide_eq_true_eq] at hrb
+      simp only [weightOK, Bool.and_eq_true, decide_eq_true_eq, Bool.or_eq_true, Bool.not_eq_true']
+      refine ⟨hpos, ?_⟩
+      rcases hrb with h1 | h2
+      · exact Or.inl h1
+      · exact Or.inr h2.1
+    | fraction r =>
+      rw [hbw] at hpos
+      simp only [Weight.val] at hpos
+      simp only [weightOK, decide_eq_true_eq]
+      exact hpos
+
 theorem setBallot_keys : ∀ (acc : List (List Nat × Rat)) (b : List Nat) (w : Rat) (x : List Nat × Rat),
     x ∈ setBallot acc b w → x.1 = b ∨ x ∈ acc
   | [], b, w, x, h => by simp [setBallot] at h; subst h; exact Or.inl rfl
